@@ -105,6 +105,18 @@ def loc_features(mod_tree, loc):
 
     if len(path) >= 2 and target_node is not None:
         walk(mod_tree, [])
+    # statements inside a compound statement (if/for/with/try) are recorded without their enclosing
+    # scope: does one that assigns the addressed simple name occur before the target?
+    in_block_before = False
+    if target_node is not None:
+        for blk in ast.walk(mod_tree):
+            if isinstance(blk, (ast.If, ast.For, ast.While, ast.With, ast.Try)):
+                for st in ast.walk(blk):
+                    nm = st.target.id if isinstance(st, ast.AnnAssign) and isinstance(st.target, ast.Name) else (
+                        st.targets[0].id if isinstance(st, ast.Assign) and st.targets and isinstance(st.targets[0], ast.Name) else None)
+                    if nm == path[-1] and st is not target_node and getattr(st, "lineno", 10 ** 9) < getattr(target_node, "lineno", 0):
+                        in_block_before = True
+    feats["same_name_assigned_in_block_before"] = in_block_before
     feats["same_name_as_parent"] = len(path) >= 2 and path[-1] == path[-2]
     feats["aliased_elsewhere"] = alias > 0
     feats["alias_before_target"] = alias_before
